@@ -786,3 +786,23 @@ def check_config_discovery(ctx: Ctx, rule: str):
         ctx.fail(rule, key, f"find_pyproject_toml_config looks at `{_av.show(here_only[0])}` only: run from a sub-directory of the project, the commands silently ignore the [tool.gotranx] configuration (scheme, delta, formats) that the same command honours in the project root", f.where())
     else:
         ctx.undecided(rule, key, f"how the configuration file is located is not recognised ({text[:100]})", f.where())
+
+
+def check_missing_values_passed_on(ctx: Ctx, rule: str, shorts=("cli/gotran2py.py", "cli/gotran2c.py")):
+    """get_code hands the name -> slot mapping it was given to the generator's missing_values as it is: the caller chose
+    those slots (they are the other model's missing-variable indices); a mapping rebuilt on the way (renumbered,
+    re-ordered, filtered) makes the generated function fill other slots than the consumer reads."""
+    from sa import av as _av
+
+    for short in shorts:
+        g = ctx.sm.func(short, "get_code", required=False)
+        if g is None or "missing_values" not in g.params:
+            continue
+        v = util.value_of(ctx, g, everything=False)
+        calls = [m for m in _av.find_all(v, "mcall") if m[2] == "missing_values"]
+        key = g.key("missing_values-passed-on")
+        if not calls:
+            ctx.undecided(rule, key, f"{short}::get_code: no call of the generator's missing_values(...) is found in what it computes", g.where())
+            continue
+        bad = [m for m in calls if not (m[3] and m[3][0] == ("sym", "missing_values")) and dict(m[4]).get("values") != ("sym", "missing_values")]
+        ctx.check(not bad, rule, key, "codegen.missing_values(missing_values)", f"{short}::get_code calls the generator's missing_values with `{_av.show(bad[0][3][0] if bad and bad[0][3] else (bad[0] if bad else ''))[:120]}`, not with the mapping it was given: the slots the caller requested are replaced", g.where())
